@@ -241,6 +241,22 @@ static void program(Rng& r) {
     alive.erase(alive.begin() + b);
     observe(*sk[ia], md[ia], r, "merge", ks[ia], dim, kern);
   }
+  {  // assignment onto an existing sketch of another dimension / k: the target takes over everything, including the dimension
+    const size_t fi = alive[0];
+    for (int variant = 0; variant < 2; ++variant) {
+      SK slot(uint16_t(ks[fi] + 3), dim + 1 + uint32_t(variant), kern);
+      slot.update(std::vector<T>(dim + 1 + uint32_t(variant), T(1)));
+      if (variant == 0) { slot = *sk[fi]; count("assign_copy_other_dim"); }
+      else { SK tmp(*sk[fi]); slot = std::move(tmp); count("assign_move_other_dim"); }
+      observe(slot, md[fi], r, variant == 0 ? "copy assignment" : "move assignment", ks[fi], dim, kern);
+      if (md[fi].n > 0) {
+        Model<T> mt = md[fi];
+        std::vector<T> p(dim, T(0.5)); slot.update(p); mt.pts.push_back(p); mt.n++;
+        observe(slot, mt, r, "update after assignment", ks[fi], dim, kern);
+      }
+      observe(*sk[fi], md[fi], r, "assignment source unchanged", ks[fi], dim, kern);
+    }
+  }
   VF_CHECK(throws([&] { SK bad(1, dim, kern); }), std::string("density|") + kname<K>() + "|k-below-2-accepted", "");
   if (want_sample()) sample("{\"config\":" + jstr(G().cur_desc) + ",\"n\":" + std::to_string(md[alive[0]].n) + ",\"retained\":" + std::to_string(sk[alive[0]]->get_num_retained()) + "}");
 }
